@@ -92,6 +92,8 @@ def case_operator(spec, rec):
         raise Violation("volume_model:zeta", "zeta differs from V/mu_r")
     if np.isrealobj(sfield.field) != (freq < 0):
         raise Violation("dtype", "Laplace <-> real field broken")
+    _reuse_model(emg3d, spec, grid, model, vol, s, case, sx, rsy, rsz, mur,
+                 epsr, freq)
 
     arrs = (vm.eta_x, vm.eta_y, vm.eta_z, vm.zeta, h[0], h[1], h[2])
     shapes = ((nx, ny+1, nz+1), (nx+1, ny, nz+1), (nx+1, ny+1, nz))
@@ -204,6 +206,75 @@ def case_operator(spec, rec):
                 spec['model']['seed']])
     rec.note({'shape': list(grid.shape_cells), 'case': case,
               'interior_edges': int(iint.size), 'sval': str(s)})
+
+
+def _reuse_model(emg3d, spec, grid, model, vol, s, case, sx, rsy, rsz, mur,
+                 epsr, freq):
+    """The coefficients belong to the model as it is NOW: build VolumeModels
+    repeatedly (other frequency in between), change the model through its
+    setters / in place, and compare with the closed formulas again.  The
+    model itself must not be modified by building a VolumeModel."""
+    rng = gen.rng_of(spec['fseed'], 17)
+    m2 = model.copy()
+    mapping = spec['model']['mapping']
+
+    def check(tag, sx, sy, sz, mur, epsr, sval, fr):
+        sf = emg3d.Field(grid, frequency=fr)
+        vm = emg3d.models.VolumeModel(m2, sf)
+        ee = 0 if epsr is None else sval*refop.epsilon_0*epsr
+        for name, sig in (('eta_x', sx), ('eta_y', sy), ('eta_z', sz)):
+            ref = -sval*refop.mu_0*vol*(sig + ee)
+            got = getattr(vm, name)
+            if not np.allclose(got, ref, rtol=1e-12, atol=0):
+                raise Violation(
+                    f"volume_model_reuse:{name}:{tag}",
+                    f"{name} of a re-used/modified model differs from the "
+                    f"closed formula (mapping {mapping}, case {case}, "
+                    f"epsilon_r {epsr is not None}, mu_r {mur is not None}, "
+                    f"laplace {fr < 0}): max rel "
+                    f"{np.max(abs(got-ref)/abs(ref)):.2e}")
+        zref = vol/(1.0 if mur is None else mur)
+        if not np.allclose(vm.zeta, zref, rtol=1e-12, atol=0):
+            raise Violation(f"volume_model_reuse:zeta:{tag}",
+                            "zeta of a re-used/modified model differs from "
+                            "V/mu_r")
+    # other frequency/domain in between, then the original one again
+    f2 = -freq*1.7
+    s2 = (-f2) if f2 < 0 else 2j*np.pi*f2
+    before = {k: None if getattr(m2, k) is None else
+              np.array(getattr(m2, k)).copy()
+              for k in ('property_x', 'property_y', 'property_z', 'mu_r',
+                        'epsilon_r')}
+    check('second_domain', sx, rsy, rsz, mur, epsr, s2, f2)
+    check('repeat', sx, rsy, rsz, mur, epsr, s, freq)
+    for k, v in before.items():
+        if v is not None and not np.array_equal(v, getattr(m2, k)):
+            raise Violation(f"volume_model_modifies_model:{k}",
+                            f"building a VolumeModel changed model.{k} "
+                            f"(mapping {mapping}, laplace {freq < 0} / "
+                            f"{f2 < 0}, epsilon_r {epsr is not None})")
+    # modify through the setters
+    fac = 10**rng.uniform(-0.5, 0.5, size=vol.shape)
+    nsx = sx*fac
+    m2.property_x = gen.map_forward(mapping, nsx)
+    nsy = nsx if case in ('isotropic', 'VTI') else rsy
+    nsz = nsx if case in ('isotropic', 'HTI') else rsz
+    nmur, nepsr = mur, epsr
+    if mur is not None:
+        nmur = mur*rng.uniform(0.5, 2, size=vol.shape)
+        m2.mu_r = nmur
+    if epsr is not None:
+        nepsr = epsr*rng.uniform(0.5, 2, size=vol.shape)
+        m2.epsilon_r = nepsr
+    check('after_setters', nsx, nsy, nsz, nmur, nepsr, s, freq)
+    # modify in place (views handed out by the model)
+    if nmur is not None:
+        m2.mu_r[...] *= 1.5
+        nmur = nmur*1.5
+    if case in ('VTI', 'triaxial'):
+        nsz = nsz*fac
+        m2.property_z[...] = gen.map_forward(mapping, nsz)
+    check('after_inplace', nsx, nsy, nsz, nmur, nepsr, s, freq)
 
 
 SUBS = {'operator': case_operator}
